@@ -239,7 +239,7 @@ class C10(Check):
     assumptions = ["fake streams fail their pending connect future on close(), like IOStream"]
 
     def partitions(self, tier):
-        N = 3 if tier == "quick" else 5
+        N = 3 if tier == "quick" else 6
         sc = list(scenarios(N, True))
         return [(N, s, 48) for s in range(48)] + [("client", s, 8) for s in range(8)]
 
